@@ -26,6 +26,7 @@ func init() {
 			ruleNoPackRemoval(c)
 			ruleRepairIndexOrder(c)
 			ruleRewriteOrder(c)
+			ruleRewriteDedupSet(c)
 			rulePackRemovers(c)
 		},
 		Controls: []Control{
@@ -65,6 +66,7 @@ func init() {
 		Run: func(c *eng.Ctx) {
 			ruleExecuteOrder(c)
 			ruleRewriteOrder(c)
+			ruleRewriteDedupSet(c)
 			ruleUsedBlobsErrors(c, false)
 			ruleMissingAbort(c)
 			ruleIgnoredErrors(c)
